@@ -154,4 +154,94 @@ theorem preflight_ok (st : St) (i : Nat) (h : preflight st = .ok i) :
         refine ⟨l, hl, ?_, by cases h; rfl⟩
         cases ht : l.type <;> simp_all
 
+/-! ### a refusal executes nothing (whole-program level) -/
+
+theorem stepBody_nodiag (p : Prog) (k : Cont)
+    (hk : ∀ idx m ctx stdin out tr, (k idx m ctx stdin out tr).diag = false)
+    (idx : Nat) (m : Machine) (ctx : Ctx) (stdin : List String) (out : String) (tr : List Nat) :
+    (stepBody p k idx m ctx stdin out tr).diag = false := by
+  unfold stepBody
+  dsimp only
+  generalize (parseLine (p.code[idx]?.getD "")).map (exec idx m ctx) = q
+  cases q with
+  | none => rfl
+  | some r =>
+    cases r with
+    | error e => rfl
+    | ok v =>
+      obtain ⟨st, m', ctx'⟩ := v
+      cases st with
+      | HALT => rfl
+      | NEXT => exact hk _ _ _ _ _ _
+      | REPEAT => exact hk _ _ _ _ _ _
+      | JMP n => exact hk _ _ _ _ _ _
+      | PRINT =>
+        simp only
+        cases lineInfo p idx with
+        | none => rfl
+        | some lt =>
+          obtain ⟨ln, text⟩ := lt
+          simp only
+          cases runPrint m' (p.code[idx]?.getD "") with
+          | none => rfl
+          | some s => exact hk _ _ _ _ _ _
+      | INT n =>
+        simp only
+        split
+        · cases lineInfo p idx <;> rfl
+        · split
+          · cases lineInfo p idx with
+            | none => rfl
+            | some lt =>
+              simp only
+              split
+              · rfl
+              · exact hk _ _ _ _ _ _
+          · split
+            · split
+              · cases lineInfo p idx <;> rfl
+              · exact hk _ _ _ _ _ _
+            · split
+              · split
+                · cases lineInfo p idx <;> rfl
+                · exact hk _ _ _ _ _ _
+              · rfl
+
+theorem loop_nodiag (p : Prog) : ∀ (fuel idx : Nat) (m : Machine) (ctx : Ctx) (stdin : List String) (out : String) (tr : List Nat),
+    (loop p fuel idx m ctx stdin out tr).diag = false := by
+  intro fuel
+  induction fuel with
+  | zero => intro idx m ctx stdin out tr; rfl
+  | succ fuel ih =>
+    intro idx m ctx stdin out tr
+    simp only [loop]
+    cases prePrompt p idx m stdin out with
+    | none => rfl
+    | some r =>
+      obtain ⟨o, s, e⟩ := r
+      cases e with
+      | true => rfl
+      | false => exact stepBody_nodiag p _ (ih) idx m ctx s o tr
+
+/-- **A refused program executes nothing**: whenever the run ends in a diagnostic (syntax or
+    semantic error of the assembler, undefined jump target, missing `start`), no instruction index
+    was executed and there is no final machine — for every source text, input and mode. -/
+theorem refused_executes_nothing (src : String) (stdin : List String) (i : Bool) (fuel : Nat)
+    (h : (runCLI src stdin i fuel).diag = true) :
+    (runCLI src stdin i fuel).trace = [] ∧ (runCLI src stdin i fuel).final = none := by
+  unfold runCLI at h ⊢
+  simp only at h ⊢
+  split at h
+  · simp at h
+  · split at h <;> (split <;> simp_all)
+  · split at h <;> (split <;> simp_all)
+  · split at h
+    · split at h <;> (split <;> simp_all)
+    · split at h <;> (split <;> simp_all)
+    · split at h
+      · split at h <;> simp_all
+      · exfalso
+        have := loop_nodiag
+        split at h <;> simp_all
+
 end Emu8086.Props.C14
